@@ -153,6 +153,8 @@ def render(insts: List[SInst], rng: Optional[random.Random] = None, header=True,
         out += ["", "a.out:     file format elf64-x86-64", "", "", "Disassembly of section .text:", ""]
     width = 8 if (not insts or insts[-1].addr < 0x100000000) else 12
     for n, si in enumerate(insts):
+        if n and si.addr < insts[n - 1].addr:
+            out += ["", f"Disassembly of section .text.{n}:", ""]
         if labels and (n == 0 or rng.random() < 0.08):
             if n:
                 out.append("")
